@@ -239,6 +239,17 @@ pub fn terminate(vm: &Vm, by: ActorID, m: ActorID, decls: &[(u64, u64, Vec<u64>)
     ext(vm, by, &id(m), &TokenAmount::zero(), MinerMethod::TerminateSectors as u64, Some(&p))
 }
 
+/// ExtendSectorExpiration2 with plain (claim-less) declarations (deadline, partition, sectors, new expiration).
+pub fn extend2(vm: &Vm, by: ActorID, m: ActorID, decls: &[(u64, u64, Vec<u64>, ChainEpoch)]) -> Inv {
+    let p = fil_actor_miner::ExtendSectorExpiration2Params {
+        extensions: decls
+            .iter()
+            .map(|(d, p, s, e)| fil_actor_miner::ExpirationExtension2 { deadline: *d, partition: *p, sectors: bf(s), sectors_with_claims: vec![], new_expiration: *e })
+            .collect(),
+    };
+    ext(vm, by, &id(m), &TokenAmount::zero(), MinerMethod::ExtendSectorExpiration2 as u64, Some(&p))
+}
+
 pub fn dispute(vm: &Vm, by: ActorID, m: ActorID, deadline: u64, post_index: u64) -> Inv {
     ext(vm, by, &id(m), &TokenAmount::zero(), MinerMethod::DisputeWindowedPoSt as u64, Some(&DisputeWindowedPoStParams { deadline, post_index }))
 }
